@@ -917,9 +917,16 @@ class C20(Plan):
             ids = [x.split(":")[0] for x in d.get("c", "-").split(",") if x != "-"]
             st = int(d.get("st", 0))
             return {e: (st + j) % c.N for j, e in enumerate(ids)}
-        a, b = where(prev), where(i)
-        moved = sum(1 for e in a if e in b and a[e] != b[e])
-        n = len(a)
+        if "mv" in i and (prev.get("c", "").startswith("#") or i.get("c", "").startswith("#")):
+            # long buffers: contents are digests; the harness counted the relocated survivors itself
+            moved = int(i["mv"])
+            n = int(prev.get("sz", 0))
+        else:
+            a, b = where(prev), where(i)
+            moved = sum(1 for e in a if e in b and a[e] != b[e])
+            n = len(a)
+            if "mv" in i and c.elem in ("E", "B") and int(i["mv"]) != moved:
+                return "relocation count: harness %s, from the contents %d" % (i["mv"], moved)
         t = optext.split(" ")
         name = t[0]
         if name == "remove":
@@ -977,7 +984,8 @@ class C17(Plan):
         if name == "boxed":
             return None if a == 1 else "boxed() performed %d heap allocations (exactly one expected)" % a
         if name == "to_vec":
-            n = len([x for x in (p["ops"].get(k - 1, {}).get("i") if k > 0 else p["init"].get("impl") or {}).get("c", "-").split(",") if x != "-"])
+            cprev = (p["ops"].get(k - 1, {}).get("i") if k > 0 else p["init"].get("impl") or {}).get("c", "-")
+            n = int(cprev[1:].split(":")[0]) if cprev.startswith("#") else len([x for x in cprev.split(",") if x != "-"])
             if a > (1 if n > 0 else 0):
                 return "to_vec allocated %d times for %d elements" % (a, n)
             return None
